@@ -115,6 +115,7 @@ def run(ctx):
     r19_floored(ctx)
     r114(ctx)
     r119_views(ctx)
+    r121(ctx)
     from . import c02 as _c02
     _c02.r29(ctx, 'R1.20')
     from . import c07
@@ -553,3 +554,51 @@ def r119_views(ctx, rule='R1.19'):
                    '`%s` then `views[...] = %s`: the constructor may copy its input (it does, by default, in current pandas); '
                    'what the readers write into %s then never reaches the index' % (norm(st)[:70], arr, arr), m.loc(st))
     ctx.floor(rule, 'index constructions whose input is registered as a view', n, 2)
+
+
+def r121(ctx, rule='R1.21'):
+    """(a) util.reset_row_idx: a MultiIndex level becomes a column through DataFrame.assign, which replaces an existing
+    column of that name - the level names are checked against the columns first (a plain index goes through
+    reset_index, which refuses by itself); (b) writer.convert, TIME_MICROS: every resolution other than ns is brought to
+    microseconds, not stored raw; (c) writer.write_multi: no part file is opened for a chunk without rows"""
+    ut = ctx.repo['util']
+    f = ut.func('reset_row_idx')
+    loops = [x for x in walk_no_nested(f) if isinstance(x, ast.For) and 'data.index.names' in norm(x.iter)]
+    ok = False
+    if len(loops) == 1:
+        body = loops[0].body
+        chk = [i for i, st in enumerate(body) if isinstance(st, ast.If) and 'data.columns' in norm(st.test) and any(isinstance(r, ast.Raise) for r in st.body)]
+        asg = [i for i, st in enumerate(body) if 'data.assign(' in norm(st)]
+        ok = bool(chk) and bool(asg) and chk[0] < asg[0]
+    ctx.ob(rule, 'util.reset_row_idx:index-level-never-replaces-a-column', ok,
+           'assign(**{name: ...}) silently overwrites a column called like the level', ut.loc(f))
+    wr = ctx.repo['writer']
+    g = wr.func('convert')
+    arm = [st for st in walk_no_nested(g) if isinstance(st, ast.If) and 'TIME_MICROS' in norm(st.test)]
+    ok = False
+    d = 'TIME_MICROS arm not found'
+    if arm:
+        inner = [st for st in arm[0].body if isinstance(st, ast.If)]
+        if inner:
+            other = inner[0].orelse
+            d = '; '.join(norm(x) for x in other)[:120]
+            ok = any("astype('m8[us]')" in norm(x) or "astype('timedelta64[us]')" in norm(x) for x in other)
+    ctx.ob(rule, 'writer.convert:timedelta-of-any-resolution-scaled-to-microseconds', ok,
+           'non-ns arm: %s - raw counts of a s / ms column are not microseconds' % d, wr.loc(arm[0]) if arm else wr.loc(g))
+    h = wr.func('write_multi')
+    cfg = CFG(h)
+    opens = [c for c in walk_no_nested(h) if isinstance(c, ast.Call) and callee(c) == 'open_with' and len(c.args) >= 2 and norm(c.args[1]) == "'wb'"]
+    ctx.floor(rule, 'part files opened by write_multi', len(opens), 1)
+    for c in opens:
+        st = None
+        for nd in cfg.nodes:
+            if nd.stmt is not None and any(y is c for y in ast.walk(nd.stmt)) and isinstance(nd.stmt, ast.With):
+                st = nd.stmt
+        blk = None
+        for b in _all_blocks(h.body):
+            if st is not None and any(x is st for x in b):
+                blk = b
+        pre = blk[:[i for i, x in enumerate(blk) if x is st][0]] if blk else []
+        ok = any(isinstance(x, ast.If) and 'len(row_group)' in norm(x.test) and any(isinstance(y, ast.Continue) for y in x.body) for x in pre)
+        ctx.ob(rule, 'writer.write_multi:no-part-file-for-an-empty-chunk', ok,
+               'make_part_file returns None for an empty frame; opening the part first leaves a 0-byte file and fails on rg.columns', wr.loc(c))
